@@ -12,6 +12,7 @@ import (
 	"os"
 	"regexp"
 	"sort"
+	"strconv"
 	"strings"
 )
 
@@ -248,6 +249,11 @@ func (e *Exec) tr(x SExpr, env *SpecEnv) TV {
 			return TV{Sub(IntLit(0), v.T), specInt}
 		case "^":
 			if v.T.Sort == SBV64 {
+				if strings.HasPrefix(v.T.S, "#x") && len(v.T.S) == 18 {
+					if n, err := strconv.ParseUint(v.T.S[2:], 16, 64); err == nil {
+						return TV{BVLit(^n), v.Ty} // constant folding: the bit library's patterns contain literals
+					}
+				}
 				return TV{mk(SBV64, "bvnot", v.T), v.Ty}
 			}
 			e.specFail("^ on a non-word in a contract")
